@@ -8,7 +8,7 @@
     moves forward") plus a bound on the caller's own steps; that an enabled
     goroutine eventually runs is Go's scheduler (DESIGN.md section 11). *)
 From Coq Require Import List NArith Bool String.
-From Verif Require Import Sni.SchedSkel Sni.Shutdown Sni.ShutdownProofs Sni.ShutdownGen Gen.TransportSkel.
+From Verif Require Import Sni.SchedSkel Sni.Shutdown Sni.ShutdownProofs Sni.ShutdownCfg Sni.ShutdownGen Gen.TransportSkel.
 Import ListNotations.
 Local Open Scope N_scope.
 
